@@ -19,11 +19,19 @@ from .sym import SymReal, SymBool, Unsupported
 REPO = os.environ.get('SKGLM_REPO', '/repo')
 
 
+def _dt(dt):
+    """numba type objects used as dtype arguments (np.ones(n, bool_)) -> the numpy dtype numba means"""
+    if dt is not None and type(dt).__module__.startswith('numba'):
+        from numba.np.numpy_support import as_dtype
+        return as_dtype(dt)
+    return dt
+
+
 def _isnum(dt):
     if dt is None:
         return True
     try:
-        d = _np.dtype(dt)
+        d = _np.dtype(_dt(dt))
     except TypeError:
         return False
     return _np.issubdtype(d, _np.floating) or d == object
@@ -34,7 +42,7 @@ def _zeros(shape, dtype=None, **k):
         a = _np.empty(shape, dtype=object)
         a[...] = 0.
         return a
-    return _np.zeros(shape, dtype=dtype)
+    return _np.zeros(shape, dtype=_dt(dtype))
 
 
 def _ones(shape, dtype=None, **k):
@@ -42,7 +50,7 @@ def _ones(shape, dtype=None, **k):
         a = _np.empty(shape, dtype=object)
         a[...] = 1.
         return a
-    return _np.ones(shape, dtype=dtype)
+    return _np.ones(shape, dtype=_dt(dtype))
 
 
 def _zeros_like(a, dtype=None, **k):
